@@ -6,10 +6,10 @@
 use emulator_8086_lib::{DataParser, Interpreter, InterpreterContext, State, VM};
 use std::sync::Arc;
 
-const PROG_A: [&str; 6] = ["mov ax, 5", "add ax, 7", "mov bx, ax", "push bx", "pop cx", "mov byte [bx], 9"];
-const PROG_B: [&str; 6] = ["mov dx, 65535", "inc dx", "mov si, 3", "sub si, 5", "stc", "mov word [si], dx"];
-const DATA_A: [&str; 2] = ["db 7", "dw [513, 2]"];
-const DATA_B: [&str; 2] = ["db \"hi\"", "db [3]"];
+const PROG_A: [&str; 3] = ["mov ax, 5", "push ax", "mov byte [bx], 9"];
+const PROG_B: [&str; 3] = ["mov dx, 65535", "inc dx", "stc"];
+const DATA_A: [&str; 1] = ["dw [513, 2]"];
+const DATA_B: [&str; 1] = ["db \"hi\""];
 
 type Outcome = (Vec<String>, [u16; 14], Vec<(usize, u8)>);
 
@@ -22,7 +22,7 @@ fn run(interp: &Interpreter, dp: &DataParser, data: &[&str], prog: &[&str], pois
     let mut ctx = InterpreterContext::default();
     let mut states = Vec::new();
     for (i, line) in prog.iter().enumerate() {
-        if poison && i % 2 == 1 {
+        if poison && i == 1 {
             // an invalid line on a scratch machine through the same shared objects
             let mut scratch = VM::new();
             let mut c2 = InterpreterContext::default();
@@ -48,17 +48,21 @@ fn run(interp: &Interpreter, dp: &DataParser, data: &[&str], prog: &[&str], pois
 }
 
 fn main() {
-    // reference: each alone, on fresh objects
-    let ref_a = run(&Interpreter::new(), &DataParser::new(), &DATA_A, &PROG_A, false);
-    let ref_b = run(&Interpreter::new(), &DataParser::new(), &DATA_B, &PROG_B, false);
+    // shared objects (building them is by far the most expensive part under Miri: one set only)
+    let interp = Arc::new(Interpreter::new());
+    eprintln!("interpreter built");
+    let dp = Arc::new(DataParser::new());
+    eprintln!("data parser built");
+    // reference: each alone, one after the other
+    let ref_a = run(&interp, &dp, &DATA_A, &PROG_A, false);
+    let ref_b = run(&interp, &dp, &DATA_B, &PROG_B, false);
+    eprintln!("sequential reference done");
     // a new machine is pristine
     let vm = VM::new();
     assert_eq!(vm.arch.flag, 0xF000);
     assert_eq!(vm.arch.cs, 0xFFFF);
     assert!(vm.mem.iter().all(|b| *b == 0));
-    // shared objects, two preemptively scheduled threads
-    let interp = Arc::new(Interpreter::new());
-    let dp = Arc::new(DataParser::new());
+    // the same objects, two preemptively scheduled threads
     let (i1, d1) = (interp.clone(), dp.clone());
     let (i2, d2) = (interp.clone(), dp.clone());
     let t1 = std::thread::spawn(move || run(&i1, &d1, &DATA_A, &PROG_A, true));
